@@ -1,7 +1,7 @@
 # peer.py - scripted FTP/FTPS peer (python3 stdlib only). It interprets the same script the Coq model
 # is given (sessions -> greeting reaction + one reaction per received command line) and records what
 # it sees: raw bytes ahead of its TLS engine, command lines, data connections and their fate.
-import os, select, socket, ssl, threading, time
+import os, select, socket, ssl, struct, threading, time
 
 CERTDIR = os.path.join(os.environ.get("VERIF_REPO", "/repo"), "test", "server", "certs")
 IO_TIMEOUT = 6.0
@@ -431,6 +431,20 @@ class PeerCase:
         early, late = r.get("now", []), []
         if data and data.get("completion_after_data"):
             early, late = r["now"][:1], r["now"][1:]
+        if data and data.get("reset_first") and st["data_listener"] is not None:
+            # a server that tears its side of the (passive) data connection down BEFORE it answers the command - an abortive
+            # close, the client finds the connection reset when it comes to close its own end
+            try:
+                st["data_listener"].settimeout(2.0)
+                ds, _ = st["data_listener"].accept()
+                ds.setsockopt(socket.SOL_SOCKET, socket.SO_LINGER, struct.pack("ii", 1, 0))
+                ds.close()
+                slog["data"].append(dict(kind="hold", ri=st.get("ri", -1), bytes=b"", arrived=True, tls=None, reused=None,
+                                         eof="reset-by-peer-before-reply", first_raw=b""))
+            except (socket.timeout, OSError) as e:
+                slog["errors"].append("reset_first: %r" % (e,))
+            time.sleep(0.05)             # let the RST reach the client before the reply does
+            data = None
         self._write_items(st, early, r.get("pace"))
         if data:
             d = dict(spec=data, done=False, aborted=False, chan=None, late=late, rec=dict(kind=data["dir"], ri=st.get("ri", -1), bytes=b"",
